@@ -1,6 +1,7 @@
 /- C17 — containers and string/number primitives behave as their abstract types.
    Property theorems only; helper lemmas live in HtpModel/Lemmas. -/
 import HtpModel.Lemmas.Ring
+import HtpModel.Lemmas.TableSim
 
 namespace Htp.C17
 open Htp.Ring
@@ -89,5 +90,63 @@ example : (runImpl (create 2 : Ring Nat)
     [.push 1, .push 2, .shift, .push 3, .push 4, .pop, .replace 1 9, .get 1, .get 5, .size]).2
     = [.unit, .unit, .elem (some 1), .unit, .unit, .elem (some 4), .ok true, .elem (some 9), .elem none, .nat 2] := by
   decide
+
+/-! ### the table (htp_table.c) as an insertion-ordered multimap -/
+open Htp Htp.Table
+
+/-- operations on a table whose keys are copied (htp_table_add) -/
+inductive TOp where
+  | add (k : Bytes) (v : Nat) | get (k : Bytes) | getC (k : Bytes) | size
+
+inductive TRes where
+  | ok (b : Bool) | val (v : Option Nat) | num (n : Nat)
+  deriving DecidableEq
+
+def stepT (t : Table) : TOp → Table × TRes
+  | .add k v => let r := Table.add t k v; (r.1, .ok r.2)
+  | .get k => (t, .val (Table.get t k))
+  | .getC k => (t, .val (Table.getC t k))
+  | .size => (t, .num (Table.size t))
+
+/-- the abstract type: an insertion-ordered multimap, lookups return the first match under the case-insensitive comparison -/
+def stepTSpec (ps : List (Bytes × Nat)) : TOp → List (Bytes × Nat) × TRes
+  | .add k v => (ps ++ [(k, v)], .ok true)
+  | .get k => (ps, .val (assocFind (fun c => Bstr.cmpMemNocase c k == 0) ps))
+  | .getC k => (ps, .val (assocFind (fun c => Bstr.cmpMemNocaseNorzero c k == 0) ps))
+  | .size => (ps, .num ps.length)
+
+def runT (t : Table) : List TOp → List TRes
+  | [] => []
+  | o :: os => (stepT t o).2 :: runT (stepT t o).1 os
+
+def runTSpec (ps : List (Bytes × Nat)) : List TOp → List TRes
+  | [] => []
+  | o :: os => (stepTSpec ps o).2 :: runTSpec (stepTSpec ps o).1 os
+
+/-- **C17 (table)**: for every operation sequence, from every table that represents the pair list `ps` (in particular a fresh
+    table of any capacity ≥ 1 and `ps = []`), `htp_table_add` / `htp_table_get` / `htp_table_get_c` / `htp_table_size` return exactly
+    what the insertion-ordered multimap returns: lookups find the FIRST pair whose key matches case-insensitively (for `get_c`, with the
+    NUL-skipping comparison), additions append and never fail, the size is the number of pairs. No bound on the number of pairs or
+    on the growth of the underlying ring. -/
+theorem C17_table_sim (t : Table) (ps : List (Bytes × Nat)) (hi : PInv t ps) (ops : List TOp) : runT t ops = runTSpec ps ops := by
+  induction ops generalizing t ps with
+  | nil => rfl
+  | cons o os ih =>
+    unfold runT runTSpec
+    cases o with
+    | add k v =>
+      have h := add_pinv t ps k v hi
+      simp only [stepT, stepTSpec, h.2]
+      rw [ih _ _ h.1]
+    | get k => simp only [stepT, stepTSpec, get_pinv t ps k hi]; rw [ih _ _ hi]
+    | getC k => simp only [stepT, stepTSpec, getC_pinv t ps k hi]; rw [ih _ _ hi]
+    | size => simp only [stepT, stepTSpec, size_pinv t ps hi]; rw [ih _ _ hi]
+
+theorem C17_table_sim_fresh (cap : Nat) (hc : 0 < cap) (ops : List TOp) : runT (Table.create cap) ops = runTSpec [] ops :=
+  C17_table_sim _ _ (create_pinv cap hc) ops
+
+/-- non-vacuity: first match wins, case-insensitively, across growth of a capacity-1 ring -/
+example : runT (Table.create 1) [.add (b!"Host") 1, .add (b!"host") 2, .add (b!"X") 3, .get (b!"HOST"), .get (b!"x"), .get (b!"y"), .size]
+    = [.ok true, .ok true, .ok true, .val (some 1), .val (some 3), .val none, .num 3] := by decide
 
 end Htp.C17
